@@ -613,6 +613,10 @@ pub fn run(tier: &str) -> i32 {
 }
 
 pub fn replay(case: &Value, rep: &Report) {
+    replay_with(case, rep, false)
+}
+
+pub fn replay_with(case: &Value, rep: &Report, contig: bool) {
     let whist: Vec<Op> = serde_json::from_value(case["writer"].clone()).unwrap_or_default();
     let what = case["what"].as_str().unwrap_or("");
     let stats = Stats::default();
@@ -633,7 +637,7 @@ pub fn replay(case: &Value, rep: &Report) {
     let mut w = build_writer(&whist);
     if what == "E2" {
         let req: Req = serde_json::from_value(case["req"].clone()).unwrap_or_default();
-        let r = step(&mut w, &img, &rm, &req, false);
+        let r = step(&mut w, &img, &rm, &req, contig);
         if let Some((clause, detail)) = r.viol {
             rep.violate(&clause, "replay".into(), detail, case.clone(), 1);
         }
@@ -646,7 +650,7 @@ pub fn replay(case: &Value, rep: &Report) {
         let mut cur = rm;
         for r in &seq {
             let mut res = StepResult { image_after: None, model_after: cur.clone(), viol: None, proof: None, accepted: false };
-            step_live(&mut w, &mut rc, &cur, r, false, &mut res);
+            step_live(&mut w, &mut rc, &cur, r, contig, &mut res);
             if let Some((clause, detail)) = res.viol {
                 rep.violate(&format!("live:{clause}"), "replay".into(), detail, case.clone(), 1);
                 return;
